@@ -286,6 +286,8 @@ def tasks(tier, seed):
         T.append(Task('units/%s' % sk.name, h_unit, (sk,), tier='B'))
     T.append(Task('U/Q/abstract-next-state-distribution', h_Q_U, (), tier='U', note='unbounded support, uninterpreted model, symbolic discount'))
     T.append(Task('rt/real-seeds-cyclic', rt_real, (seed, 40 if tier == 'quick' else 300), tier='R', kind='rt'))
+    from specs import reuse as _reuse
+    T.append(Task('rt/object-reuse', _reuse.rt_planner_reuse, ('C04', ['LRTDP'], seed), tier='R', kind='rt', note='planner objects, earlier results and model objects across calls'))
     return T
 
 
